@@ -194,6 +194,7 @@ func H_General() {
 		rot = 0
 	}
 	large, sweep := vp.Choice("large", 2) == 1, vp.Choice("sweep", 2) == 1
+	vp.Reach("inputs")
 	vp.ExactBegin()
 	ras.MoveTo(float32(mapX(float64(x1))), float32(mapY(float64(y1))))
 	vp.ExactEnd()
